@@ -147,7 +147,7 @@ class smrt_diag(object):
         elif isinstance(other, np.ndarray):
             assert other.shape == self.shape  # we do not allow broadcasting (not yet)...
             other = other.copy()
-            other[np.diag_indices_from[other]] += self.diag
+            other[np.diag_indices_from(other)] += self.diag
             return other
         else:
             raise NotImplementedError
